@@ -514,7 +514,51 @@ func c12Records(r *kernel.Run) {
 		r.Count("fault.misdirected_sealed_field", 1)
 		_, err = types.LoadNodeInformation(w.Ctx, w.Storage, a.Id, o1...)
 		fail("after transplanting the sealed server encryption key of another record", err)
-		r.FP(kname, opt, backend)
+		// the same through the lookup by node ID: a set in which one record cannot be opened is not a loaded set
+		nl := w.St.WithNodeIdLoader()
+		nid := "node-with-several-records"
+		var set []*types.NodeInformation
+		for i := 0; i < tp.Range(2, 4); i++ {
+			m := mk(fmt.Sprintf("set%d", i))
+			m.NodeId = nid
+			set = append(set, m)
+		}
+		bad := tp.Draw(len(set))
+		how := Pick2(tp, "sealed with a different wrapper", "carrying the sealed server encryption key of another record")
+		for i, m := range set {
+			o := o1
+			if i == bad && how == "sealed with a different wrapper" {
+				o = o2
+			}
+			if err := proto.Clone(m).(*types.NodeInformation).Store(w.Ctx, w.Storage, o...); err != nil {
+				r.Violate("roundtrip", "store-failed/"+kname, "%v", err)
+			}
+		}
+		gotSet, err := types.LoadNodeInformationSetByNodeId(w.Ctx, nl, nid, o1...)
+		if how == "sealed with a different wrapper" {
+			fail("set by node ID with one record "+how, err)
+		} else {
+			// first a clean set must load completely with the right wrapper
+			if err != nil || len(gotSet.GetNodes()) != len(set) {
+				r.Violate("roundtrip", "roundtrip-differs/NodeInformationSet", "loading %d records under one node ID with the same wrapper: err=%v got %d", len(set), err, len(gotSet.GetNodes()))
+			}
+			donor := set[(bad+1)%len(set)]
+			rv, rd := &types.NodeInformation{Id: set[bad].Id}, &types.NodeInformation{Id: donor.Id}
+			w.Inner.Load(w.Ctx, rv)
+			w.Inner.Load(w.Ctx, rd)
+			rv.ServerEncryptionPrivateKeyBytes = rd.ServerEncryptionPrivateKeyBytes
+			if w.Backend == "storeonce" {
+				w.Inner.Remove(w.Ctx, &types.NodeInformation{Id: rv.Id})
+			}
+			w.Inner.Store(w.Ctx, rv)
+			r.Count("fault.misdirected_sealed_field", 1)
+			_, err = types.LoadNodeInformationSetByNodeId(w.Ctx, nl, nid, o1...)
+			fail("set by node ID with one record "+how, err)
+		}
+		_, err = types.LoadNodeInformationSetByNodeId(w.Ctx, nl, nid)
+		fail("set by node ID without a wrapper", err)
+		r.Count("ops.load_set_by_node_id", 1)
+		r.FP(kname, opt, backend, how, bad, len(set))
 	case 2:
 		now := time.Now()
 		rc := &types.RootCertificates{Id: nodeenrollment.RootsMessageId, Current: makeRoot(nodeenrollment.CurrentId, now, now.Add(time.Hour)), Next: makeRoot(nodeenrollment.NextId, now.Add(30*time.Minute), now.Add(90*time.Minute))}
